@@ -69,7 +69,7 @@ class C06(E1Check):
 
     def op_list(self, cfg):
         # PF is dated after the virtual clock: a point without a time (P6, stamped "now") is then out of order
-        extra = [("insert", "PF", None, False, "db"), ("insert", "P6", None, False, "db")]
+        extra = [("insert", "PF", None, False, "db"), ("insert", "P6", None, False, "db"), ("insert", "PH", None, False, "db")]
         return std_ops(self.alpha, cfg, self.tier) + extra + fault_ops(self.alpha, self.tier)
 
     def enabled(self, op, contents, cfg, history):
